@@ -28,6 +28,7 @@ static void run_history(Case &c, hwloc_topology_t t, const OpOpts &oo) {
     std::string before = dump_topology(t);
     OpRes r = apply_op(c, c.ops[s], t, oo);
     c.desc("\n | " + r.desc);
+    if (getenv("VERIF_TRACE")) { FILE *tf = fopen(getenv("VERIF_TRACE"), "a"); if (tf) { fprintf(tf, "==== after step %zu: %s\n%s\n", s, r.desc.c_str(), dump_topology(t).c_str()); fclose(tf); } }
     c.cls((std::string("op:") + op_kind_name[r.kind] + (r.ok ? ":ok" : ":failed")).c_str());
     if (prev_kind >= 0) c.cls((std::string("pair:") + op_kind_name[prev_kind] + ">" + op_kind_name[r.kind]).c_str());
     prev_kind = r.kind;
@@ -47,7 +48,7 @@ static void run_history(Case &c, hwloc_topology_t t, const OpOpts &oo) {
 
 void h_run(Case &c) {
   Draw &d = c.head;
-  SpecOpts so; so.misc_keep = d.chance(2, 3); so.syn.max_pus = 64; so.xml_den = 8;
+  SpecOpts so; so.misc_keep = d.chance(2, 3); so.syn.max_pus = 64; so.xml_den = 8; so.gx_num = 1; so.gx_den = 6;
   TopoSpec sp = gen_topospec(d, so);
   // one case in eight: a memory-rich machine (NUMA nodes attached at up to three depths, 4..12 of them at one depth), the shape on which
   // distances between NUMA nodes, memory attributes and Groups of NUMA nodes are realistic
@@ -90,6 +91,12 @@ static hwloc_topology_t load_syn(const char *s, unsigned long flags = 0) { hwloc
 static hwloc_bitmap_t bm(const char *list) { hwloc_bitmap_t b = hwloc_bitmap_alloc(); hwloc_bitmap_list_sscanf(b, list); return b; }
 
 bool h_named(const std::string &name, Case &c) {
+  if (name == "F-C02-j") {  // KEEP_STRUCTURE merge: a child that replaces its parent has a complete_cpuset that starts later than the parent's (offline CPUs)
+    c.desc("16em64t-4s2c2t-offlines.xml, all types KEEP_STRUCTURE, restrict to {1-2,11-15}: Packages/Cores with one PU are replaced by their PU, whose complete_cpuset starts after its siblings'");
+    for (int variant = 0; variant < 2; variant++) { hwloc_topology_t t; hwloc_topology_init(&t); hwloc_topology_set_flags(t, variant ? HWLOC_TOPOLOGY_FLAG_INCLUDE_DISALLOWED : 0); hwloc_topology_set_all_types_filter(t, HWLOC_TYPE_FILTER_KEEP_STRUCTURE);
+      CHECK(c, hwloc_topology_set_xml(t, (std::string(verif_repo()) + "/tests/hwloc/xml/16em64t-4s2c2t-offlines.xml").c_str()) == 0 && hwloc_topology_load(t) == 0, "named_setup", "load failed"); require_wf(c, t, "load");
+      hwloc_bitmap_t s = bm("1-2,11-15"); int r = hwloc_topology_restrict(t, s, 0); hwloc_bitmap_free(s); CHECK(c, r == 0, "named_setup", "restrict failed"); require_wf(c, t, "after restrict({1-2,11-15})"); hwloc_topology_destroy(t); }
+    return true; }
   if (name == "nested-numa-groups") {  // shape of a seeded change: two Group levels inserted at once above NUMA nodes, with a NUMA node attached above them
     c.desc("[numa] pack:8 [numa] pu:2; the 8 package NUMA nodes grouped by distances 20/40/80");
     hwloc_topology_t t = load_syn("[numa] pack:8 [numa] pu:2"); require_wf(c, t, "load"); std::vector<hwloc_obj_t> objs; for (hwloc_obj_t n = NULL; (n = hwloc_get_next_obj_by_type(t, HWLOC_OBJ_NUMANODE, n));) if (n->parent->depth > 0) objs.push_back(n);
